@@ -10,7 +10,7 @@ from harness import core
 from harness.core import Outcome
 
 ID = "C20"
-LEAN_TARGETS = ["BeyondVerif.Props.C20", "BeyondVerif.Props.C20Forest", "BeyondVerif.Witness.C20"]
+LEAN_TARGETS = ["BeyondVerif.Props.C20", "BeyondVerif.Props.C20Forest", "BeyondVerif.Props.C20Registry", "BeyondVerif.Props.C20Named", "BeyondVerif.Witness.C20"]
 THEOREMS = [
     "BeyondVerif.C20.path_valid_chain",
     "BeyondVerif.C20.nbrs_iff_linked",
@@ -28,7 +28,19 @@ THEOREMS = [
     "BeyondVerif.C20.forest_routingExact",
     "BeyondVerif.C20.new_registration_preserves",
     "BeyondVerif.Node.refreshRoutes_spec",
+    "BeyondVerif.C20.named_model_is_node_model",
+    "BeyondVerif.C20.named_path_valid_chain",
+    "BeyondVerif.C20.applyOps_spec",
+    "BeyondVerif.C20.registered_run",
+    "BeyondVerif.C20.convert_resolves",
+    "BeyondVerif.C20.convert_never_unknown_transformation",
+    "BeyondVerif.C20.fresh_names_keep_methods",
+    "BeyondVerif.C20.sites_register_root",
+    "BeyondVerif.C20.builtin_links_have_methods",
+    "BeyondVerif.C20.small_named_forests_exact",
     "BeyondVerif.C20W.pentagon_not_shortest",
+    "BeyondVerif.C20W.topo_ctor_alone_unresolvable",
+    "BeyondVerif.C20W.subclass_registration_unresolvable",
 ]
 LEVEL_TEXT = ("Lean theorems over the routing model: for every insertion history (any graph, order, orientation) each returned path is a chain of "
               "inserted links from source to goal (path_valid_chain); for EVERY forest history of any size (each link joins two components; any order, "
@@ -36,23 +48,59 @@ LEVEL_TEXT = ("Lean theorems over the routing model: for every insertion history
               "for every unconnected pair, fuel >= number of nodes always suffices (forest_routes_exact, forest_routes_exact_bounded, forest_path_unique, forest_tables_exact, "
               "forest_routingExact, by induction over histories with a traversal invariant for _update); linking a fresh leaf changes no existing route "
               "(new_registration_preserves); the three built-in graphs, regenerated from the source in execution order each run, and all forest "
-              "histories on <=4 nodes are additionally checked by (kernel) decide. Exact differential correspondence of the model with the real Node "
-              "class on exhaustive/random histories.")
-LEVEL_NOTE = ("shortest-chain clause for cyclic graphs is false of the code (known finding, pinned); model hand-written, tied by correspondence; "
-              "Lean kernel + propext/Classical.choice/Quot.sound")
-TECHNIQUE = "Lean 4 proof by induction over insertion histories + kernel decide on regenerated graphs; exact model/implementation correspondence"
+              "histories on <=4 nodes are additionally checked by (kernel) decide. "
+              "Registry layer (Model/Registry.lean: node identity distinct from node name, method table keyed (holder, '<a>_to_<b>') with lookup on the START "
+              "object through instance dict and MRO, as convert_to does): with one name per node the named model is the routing model above "
+              "(named_model_is_node_model); for every history of registry operations and any names a returned path is a chain of inserted links ending at a node "
+              "carrying the goal name (named_path_valid_chain); for every history of executions of registration sites that store the method of each link they insert on "
+              "the base class, every link stays registered (registered_run) and convert_to never raises 'Unknown transformation' on a connected pair, from any start "
+              "object that is an instance of the base class (convert_resolves, convert_never_unknown_transformation); the registration sites of the current source, "
+              "regenerated from the AST each run, satisfy that hypothesis (sites_register_root, decide) and every built-in link has a class-body method "
+              "(builtin_links_have_methods, decide); registrations under new names change no lookup between old names (fresh_names_keep_methods); all forests on <=3 "
+              "nodes under every assignment of (shared) names route to a nearest node of the name (small_named_forests_exact, kernel decide). "
+              "Exact differential correspondence of both models with the real Node / Orientation / Center classes on exhaustive/random histories.")
+LEVEL_NOTE = ("shortest-chain clause for cyclic graphs is false of the code (known finding, pinned); a bare TopocentricOrientation stores its link method on the "
+              "instance only (known finding, kernel-checked witness); models hand-written, tied by correspondence, registration sites and built-in tables regenerated "
+              "from the source; Lean kernel + propext/Classical.choice/Quot.sound")
+TECHNIQUE = "Lean 4 proof by induction over insertion / registration histories + kernel decide on tables and sites regenerated from the source; exact model/implementation correspondence"
 TRUSTED = [
     "harness/extract_graphs.py: records every Node.__add__ executed at import of beyond (execution order) -> Generated/Graphs.lean",
-    "correspondence: real Node objects vs compiled Lean model on identical insertion histories, exact comparison of neighbour sets, every routing table and every path",
+    "harness/c20_sites.py: reads the registration sites (setattr holder, key composition, link operands, order, calls of other sites) from the AST of center.py, orient.py, "
+    "stations.py, frames.py, lagrange.py, solarsystem.py, jpl.py -> Generated/RegSites.lean; hand-written there: per site, which source expression denotes self / parent / other "
+    "(checked for consistency at every inlined call; anything unrecognised aborts the extraction)",
+    "correspondence: real Node objects vs compiled Lean model on identical insertion histories, exact comparison of neighbour sets, every routing table and every path "
+    "(also with nodes sharing names); real Orientation / Center classes and subclasses (TopocentricOrientation, LocalOrbitalOrientation, LagrangeOrient, JplCenter, user-defined "
+    "sub- and sub-subclasses) driven through the registration sites of the code and raw + / setattr vs the compiled registry model: graph, and for every start object and goal name "
+    "the exception kind or the chain of (step, direct/reverse, object owning the resolved method) of a real convert_to call",
+    "correspondence real-registry: in a forked child every Node.__add__ (patched) and every stored '<a>_to_<b>' attribute (class / instance dict comparison before and after each "
+    "public-API registration: solarsystem, jpl with tests/data/jpl, lagrange, stations below any frame, orbit frames, re-registrations) is recorded and replayed in the compiled registry "
+    "model; neighbour sets, routing tables and, for every start object and goal name, the chain of resolved link methods of the live Earth / ITRF graphs are compared exactly",
+    "harness/c20_registry.py: bounded walk of Node.routes (n+2 steps) used to decide that a real path()/convert_to call terminates before making it",
 ]
 ASSUMPTIONS = [
-    "the model Model/Node.lean is hand-written; it is tied to beyond/utils/node.py by the exact correspondence run only",
+    "the models Model/Node.lean and Model/Registry.lean are hand-written; they are tied to beyond/utils/node.py, beyond/frames/center.py, orient.py by the exact correspondence runs "
+    "and (registration sites, built-in links and class-body methods) by tables regenerated from the source",
+    "method keys are modelled as pairs of names: node names do not contain the substring '_to_' (the code concatenates f'{a}_to_{b}')",
+    "a Center and its Node are one object of the model (Center.__init__ creates exactly one Node under the same name); single inheritance below Orientation / Center (MRO = chain)",
+    "no conversion runs in the middle of a registration site (a site's link and setattr are observed together)",
 ]
-OPEN = []
-NOT_COVERED = ["'a shortest chain in general' is false of the current code (known finding C20-cyclic-nonshortest)"]
+OPEN = [
+    "with nodes sharing a name, 'routes lead to a nearest node of the name and never loop' is proved only for <=3 nodes (kernel decide); beyond that it is compared exhaustively "
+    "(4 nodes) / on random forests with the real code (forest_routes_exact assumes one name per node)",
+    "the initial (import-time) registry enters convert_resolves as a hypothesis (every link has a base-class method); for the built-in orientation graph that hypothesis is the "
+    "regenerated decide-theorem builtin_links_have_methods, the two are not composed into one statement inside Lean",
+]
+NOT_COVERED = ["'a shortest chain in general' is false of the current code (known finding C20-cyclic-nonshortest)",
+               "a TopocentricOrientation constructed directly is linked but unresolvable from other orientations (known finding C20-topocentric-ctor-instance-only)",
+               "which of several live nodes of ONE name a conversion designates: the code routes to the nearest node of the name and the newest registration of a key shadows the older one; "
+               "numerical results of conversions that pass through such a name (analytical and JPL 'Sun' both alive; a frame hanging behind a station that was re-created under its name) "
+               "are not claimed - the property speaks of registrations under new names"]
 RULE = ("correspondence: exhaustive enumeration of forest insertion histories (all orders, all orientations, every prefix) "
-        "on n<=5 (quick) / n<=6 (thorough) nodes plus random forests (<=40 nodes) and random cyclic graphs; a case is non-trivial "
-        "when it has >=2 links; distinct = distinct history. oracle: BFS on the real Node objects, registry interleavings on the real frame registry")
+        "on n<=5 (quick) / n<=6 (thorough) nodes plus random forests (<=40 nodes) and random cyclic graphs; the same with shared names (3 nodes: every name assignment x every history; "
+        "4 nodes sampled/exhaustive; random <=12 nodes; star-of-same-named-children shapes); registry scenarios: every driven site below a plain / subclass / sub-subclass parent, random "
+        "interleavings of sites and raw operations; a case is non-trivial when it has >=2 links; distinct = distinct history. oracle: BFS on the real Node objects (by identity when names "
+        "are shared), registry interleavings on the real frame registry in forked children (solarsystem, jpl with tests/data/jpl, lagrange, stations below non-ITRF parents, orbit frames, "
+        "re-registrations) under step / time / memory bounds")
 
 
 def extract(ctx):
@@ -106,7 +154,21 @@ def extract(ctx):
         raise RuntimeError(f"missing built-in graph: {set(label.values()) - seen}")
     out.append("end BeyondVerif.Generated")
     ch = core.write_if_changed(os.path.join(core.LEAN, "BeyondVerif", "Generated", "Graphs.lean"), "\n".join(out) + "\n")
-    return ["Generated/Graphs.lean"] if ch else []
+    changed = ["Generated/Graphs.lean"] if ch else []
+    # registration sites (which object each `<a>_to_<b>` method is stored on), from the AST of the anchored files
+    from harness import c20_sites
+    sites = c20_sites.extract_sites(core.REPO)
+    onames = ctx.graphs["orient"][0]
+    meth = []
+    for a, b in c20_sites.orientation_class_methods(core.REPO):
+        if a not in onames or b not in onames:
+            raise RuntimeError(f"Orientation.{a}_to_{b}: not a pair of built-in orientations")
+        meth.append((onames.index(a), onames.index(b)))
+    ctx.sites = sites
+    ctx.orient_builtin = (list(onames), [list(e) for e in ctx.graphs["orient"][1]], [list(e) for e in meth])
+    if core.write_if_changed(os.path.join(core.LEAN, "BeyondVerif", "Generated", "RegSites.lean"), c20_sites.to_lean(sites, meth)):
+        changed.append("Generated/RegSites.lean")
+    return changed
 
 
 # ---------------------------------------------------------------- real code
@@ -252,7 +314,175 @@ def correspondence(ctx):
         out.count(key="live-" + name, kind="live-" + name)
         if exp != m:
             out.fail("node-live", f"live {name} graph tables differ from the model run on the recorded history", name, observed=exp, expected=m)
+    correspondence_named(ctx, out)
+    correspondence_registry(ctx, out)
+    correspondence_real_registry(ctx, out)
     return out
+
+
+def correspondence_real_registry(ctx, out):
+    """Model/Registry.lean vs the REAL registries of beyond.frames (centres below Earth, orientations around ITRF) after
+    histories of public-API registrations (solarsystem, jpl, lagrange, stations below any frame, orbit frames, re-registrations):
+    every Node.__add__ and every stored '<a>_to_<b>' attribute is recorded in a forked child and replayed in the model; neighbour
+    sets, routing tables and, for every start object and goal name, the resolved chain of link methods are compared exactly"""
+    from harness import c20_registry as R
+    builtin = getattr(ctx, "orient_builtin", None)
+    if builtin is None:
+        out.fail("real-registry-tie", "built-in orientation tables were not extracted", {})
+        return
+    scen = [(nm, ops) for nm, ops in R.fixed_scenarios()] + [R.topo_direct_scenario()]
+    for i in range(ctx.n(10, 120)):
+        scen.append((f"random{i}", R.random_scenario(ctx.rng, ctx.rng.randint(3, 10))))
+    lines, meta = [], []
+    for nm, ops in scen:
+        res = R.run_forked(ops, {"builtin": builtin, "no_convert": True}, time_limit=40.0)
+        if res.get("error") or not res.get("tie"):
+            if not res.get("fails"):
+                out.fail("real-registry-tie", "scenario could not be recorded on the real registry", {"registry_scenario": ops}, observed=res.get("error"))
+            continue     # a scenario the real code fails on is a matter for the oracle, which runs the same scenarios
+        for world in ("orient", "center"):
+            line, real = res["tie"][world]
+            lines.append(line)
+            meta.append((nm, ops, world, real))
+    model = core.Driver().run(lines)
+    for (nm, ops, world, real), line, m in zip(meta, lines, model):
+        out.count(key=("real-registry", world, line), kind="real-registry-" + world, objects=min(int(line.split()[1]) // 10 * 10, 60))
+        if real != m:
+            # first differing field, for the report
+            rs, ms = real.split(";"), m.split(";")
+            k = next((i for i, (a, b) in enumerate(zip(rs, ms)) if a != b), min(len(rs), len(ms)))
+            out.fail("real-registry-tie", f"{world} registry after a history of public registrations differs from Model/Registry.lean run on the recorded links / setattr",
+                     {"registry_scenario": ops, "world": world, "request": line[:400]}, observed=";".join(rs[max(0, k - 1):k + 2])[:300], expected=";".join(ms[max(0, k - 1):k + 2])[:300])
+        out.sample({"scenario": nm, "world": world, "request": line[:200], "reply": m[:160]}, limit=8)
+
+
+def random_names(rng, n):
+    """names for n nodes, some of them shared"""
+    names = []
+    for _ in range(n):
+        if names and rng.random() < 0.4:
+            names.append(rng.choice(names))
+        else:
+            names.append(max(names, default=-1) + 1)
+    return names
+
+
+def named_cases(ctx, rng, quick_n, thorough_n):
+    cases = []
+    # exhaustive: every name assignment on 3 nodes x every forest history; on 4 nodes every assignment x a slice of the histories
+    for names in itertools.product(range(3), repeat=3):
+        for h in forest_histories(3):
+            cases.append((list(names), h, "named-exhaustive-3"))
+    h4 = list(forest_histories(4))
+    for names in itertools.product(range(3), repeat=4):
+        if len(set(names)) == 4:
+            continue
+        for h in (h4 if ctx.thorough else rng.sample(h4, 6)):
+            cases.append((list(names), h, "named-exhaustive-4"))
+    for _ in range(ctx.n(quick_n, thorough_n)):
+        n = rng.randint(4, 12)
+        names = random_names(rng, n)
+        r = rng.random()
+        h = random_tree_history(rng, n) if r < 0.4 else (random_forest(rng, n) if r < 0.8 else random_graph(rng, min(n, 8)))
+        if r >= 0.8:
+            names = names[:min(n, 8)]
+        if rng.random() < 0.2 and h:
+            h = h + [rng.choice(h)]          # a link executed twice (create_station links the orientation twice)
+        cases.append((names, h, "named-random"))
+    # the shapes of the real registries: a root with same-named children having sub-trees (Earth / Earth / Earth)
+    for _ in range(ctx.n(60, 600)):
+        k = rng.randint(2, 4)
+        names, h = [0], []
+        for _c in range(k):
+            names.append(0 if rng.random() < 0.7 else 1)
+            child = len(names) - 1
+            sub = []
+            for _s in range(rng.randint(0, 3)):
+                names.append(rng.randint(2, 5))
+                sub.append((len(names) - 1, rng.choice([child] + [x for x, _ in sub])))
+            grp = [(child, 0) if rng.random() < 0.5 else (0, child)] + [(a, b) if rng.random() < 0.5 else (b, a) for a, b in sub]
+            if rng.random() < 0.5:
+                rng.shuffle(grp)
+            h += grp
+        cases.append((names, h, "named-same-name-children"))
+    return cases
+
+
+def correspondence_named(ctx, out):
+    """Model/Registry.lean (named routing) vs real Node objects several of which carry one name"""
+    from harness import c20_registry as R
+    cases = named_cases(ctx, ctx.rng, 400, 6000)
+    model = core.Driver().run([R.named_line(nm, h) for nm, h, _ in cases])
+    for (names, h, kind), m in zip(cases, model):
+        real = R.real_named_dump(names, h)
+        out.count(key=("named", tuple(names), tuple(h)), nontrivial=len(h) >= 2 and len(set(names)) < len(names), kind=kind)
+        if real != m:
+            out.fail("named-node-tables", "routing tables / paths of nodes sharing names differ between Model/Registry.lean and beyond.utils.node",
+                     {"names": names, "hist": h}, observed=real, expected=m)
+        out.sample({"line": R.named_line(names, h), "reply": m[:160]}, limit=4)
+
+
+ORIENT_MRO = {0: [0], 1: [1, 0], 2: [2, 0], 3: [3, 0], 4: [4, 0], 5: [5, 4, 0]}
+CENTER_MRO = {0: [0], 1: [1, 0], 2: [2, 0]}
+
+
+def registry_scenarios(ctx, rng, labels, quick_n, thorough_n):
+    from harness import c20_registry as R
+    sc = []
+    S = {lab: i for i, lab in enumerate(labels)}
+    # fixed: every driven site once below a plain parent and once below a parent of a subclass, queried from everywhere
+    k = 0
+    for site, cls in (("TopocentricOrientation.__init__", 1), ("create_station[orient]", 1), ("LocalOrbitalOrientation.__init__", 2),
+                      ("orbit2frame[orient]", 2), ("LagrangeOrient.__init__", 3), ("lagrange[orient]", 3)):
+        for pcls in (0, 4, 5, 3, 1):
+            if pcls == 0:
+                names, classes, ops = [0, 1, 2], [0, 0, cls], [f"A:c0:1:0:1", "L:0:1", f"S:{S[site]}:2:1:0"]
+            elif pcls in (4, 5):
+                names, classes, ops = [0, 1, 2], [0, pcls, cls], [f"A:c0:1:0:1", "L:0:1", f"S:{S[site]}:2:1:0"]
+            elif pcls == 3:
+                names, classes, ops = [0, 1, 2], [0, 3, cls], [f"S:{S['LagrangeOrient.__init__']}:1:0:0", f"S:{S[site]}:2:1:0"]
+            else:
+                names, classes, ops = [0, 1, 2], [0, 1, cls], [f"S:{S['create_station[orient]']}:1:0:0", f"S:{S[site]}:2:1:0"]
+            sc.append({"world": "orient", "tag": f"F{k}", "names": names, "classes": classes, "mro": ORIENT_MRO, "ops": ops, "kind": "reg-fixed-orient"})
+            k += 1
+    for site, cls in (("Center.add_link", 0), ("Center.add_link", 2), ("JplCenter.add_link", 1), ("create_station[center]", 0), ("orbit2frame[center]", 0)):
+        for pcls in (0, 1, 2):
+            sc.append({"world": "center", "tag": f"F{k}", "names": [0, 1, 2, 1], "classes": [0, pcls, cls, 0], "mro": CENTER_MRO,
+                       "ops": [f"S:{S['JplCenter.add_link'] if pcls == 1 else S['Center.add_link']}:1:0:0", f"S:{S[site]}:2:1:0", f"S:{S['Center.add_link']}:3:0:0"],
+                       "kind": "reg-fixed-center"})
+            k += 1
+    for i in range(ctx.n(quick_n, thorough_n)):
+        w = "orient" if i % 3 else "center"
+        x = R.random_reg_scenario(rng, w, labels, ORIENT_MRO if w == "orient" else CENTER_MRO, f"{k}")
+        x["kind"] = "reg-random-" + w
+        sc.append(x)
+        k += 1
+    return sc
+
+
+def correspondence_registry(ctx, out):
+    """Model/Registry.lean (method table, lookup through the class hierarchy, convert_to) vs the real Orientation / Center
+    classes and subclasses, driven through the registration sites of the code and raw `+` / setattr"""
+    from harness import c20_registry as R
+    labels = core.Driver().run(["sites"])[0].split(";")
+    want = list(getattr(ctx, "sites", {}) or labels)
+    if labels != want:
+        out.fail("registry-sites", "registration sites compiled into the driver differ from the ones extracted from the source", want, observed=labels)
+        return
+    sc = registry_scenarios(ctx, ctx.rng, labels, 250, 4000)
+    model = core.Driver().run([R.reg_line(x) for x in sc])
+    real, why = R.forked(R.real_reg_dumps, sc, labels, time_limit=ctx.n(120, 600))
+    if real is None:
+        out.fail("registry-real-side", "the real classes could not be driven through the scenarios within the time/memory bound", {"n": len(sc)}, observed=why)
+        return
+    for x, m, r in zip(sc, model, real):
+        shared = len(set(x["names"])) < len(x["names"])
+        out.count(key=("reg", x["world"], tuple(x["names"]), tuple(x["classes"]), tuple(x["ops"])), kind=x["kind"], shared_names=shared,
+                  unresolved="UT:" in m)
+        if r != m:
+            out.fail("registry-convert", "method resolution of convert_to (which object's <a>_to_<b> method each step uses / Unknown transformation) differs "
+                     "between Model/Registry.lean and the real classes", {k: x[k] for k in ("world", "names", "classes", "ops")}, observed=r, expected=m)
+        out.sample({"line": R.reg_line(x), "reply": m[:200]}, limit=6)
 
 
 def live_builtin_tables():
@@ -509,6 +739,85 @@ def check_nested_and_body_frames(out, rng, rounds):
             attempt("lof-body-parent", "an unrelated pre-existing frame (ITRF) cannot reach the new frame", lambda: lro.copy(frame="ITRF").copy(frame=lname)[:3], np.zeros(3), 1e-3)
 
 
+def check_named_history(out, names, hist, kind):
+    """nodes sharing names: from every node, every NAME carried by a connected node is reached along existing links (the
+    nearest such node when the links form a forest), every other name is reported unknown; the walk is step-bounded"""
+    from harness import c20_registry as R
+    from beyond.utils.node import Node
+    n = len(names)
+    nodes = [Node(str(x)) for x in names]
+    for a, b in hist:
+        nodes[a] + nodes[b]
+    idx = {id(x): i for i, x in enumerate(nodes)}
+    linked = {frozenset(e) for e in hist}
+    forest = _is_forest(n, hist)
+    inp = {"names": list(names), "hist": [list(e) for e in hist]}
+    for s in range(n):
+        d = bfs(n, hist, s)
+        for goal in sorted(set(names)):
+            if names[s] == goal:
+                continue
+            st, p = R.bounded_walk(nodes[s], str(goal), n + 2)
+            cands = [d[v] for v in d if names[v] == goal]
+            where = dict(inp, s=s, goal=goal)
+            if not cands:
+                if st != "U":
+                    out.fail("named-unconnected-not-reported", "name carried by no connected node is not reported as unknown", where, observed=st, expected="U")
+                continue
+            if st != "ok":
+                what = {"L": "routing loop (Node.path would not terminate)", "U": "connected name reported as Unknown", "K": "route breaks at an intermediate node"}[st]
+                out.fail("named-connected-no-route:" + st, what + " although a node of that name is connected", where,
+                         observed=[idx[id(x)] for x in p][:12], expected=f"a chain of {min(cands)} links")
+                continue
+            p = [idx[id(x)] for x in nodes[s].path(str(goal))]
+            if not (p[0] == s and names[p[-1]] == goal and all(frozenset((p[i], p[i + 1])) in linked for i in range(len(p) - 1))):
+                out.fail("named-invalid-chain", "returned path is not a chain of existing links ending at a node of the goal name", where, observed=p)
+            elif forest and len(p) - 1 != min(cands):
+                out.fail("named-forest-not-nearest", "in a forest the path does not lead to the nearest node of that name", where, observed=p, expected=f"{min(cands)} steps")
+    out.count(key=("named", tuple(names), tuple(map(tuple, hist))), nontrivial=len(hist) >= 2 and len(set(names)) < n, kind=kind)
+
+
+def check_registry_scenarios(out, ctx, rng, big):
+    """histories on the REAL frame registry (beyond.frames, beyond.env.solarsystem, beyond.env.jpl with tests/data/jpl,
+    beyond.frames.lagrange), each in a forked child under a step / time / memory bound: harness/c20_registry.py"""
+    from harness import c20_registry as R
+    scen = [(nm, ops, "registry-fixed") for nm, ops in R.fixed_scenarios()]
+    scen.append(R.topo_direct_scenario() + ("registry-known",))
+    for i in range(60 if ctx.thorough else (20 if big else 8)):
+        scen.append((f"random{i}", R.random_scenario(rng, rng.randint(4, 12 if big else 9)), "registry-random"))
+    tot = {}
+    for nm, ops, kind in scen:
+        res = R.run_forked(ops, {"max_pairs": 60 if big else 40}, time_limit=60.0 if big else 25.0)
+        if res.get("error"):
+            raise RuntimeError(f"registry scenario {nm}: {res['error']} {res.get('tb', '')}")
+        c = res.get("counts", {})
+        for k, v in c.items():
+            tot[k] = tot.get(k, 0) + v
+        out.count(key=("registry", nm, json.dumps(ops, sort_keys=True)), kind=kind)
+        out.cases += c.get("conversions", 0) + c.get("route_walks", 0)
+        seen = set()
+        for f in res["fails"]:
+            if f["family"] in seen:
+                continue
+            seen.add(f["family"])
+            out.fail(f["family"], f["what"], {"registry_scenario": ops, "name": nm, "detail": f["detail"]}, observed=f["detail"])
+    out.notes.append("real-registry scenarios: " + ", ".join(f"{k}={v}" for k, v in sorted(tot.items())))
+    out.sample({"registry_scenario": scen[0][1][:3], "checked": "bounded route sweep by identity, link-method resolvability from every start object, all pairs convert, unchanged by new names"})
+
+
+def _registry_families(seed, rounds_a, rounds_b):
+    import random
+    import warnings
+    import logging
+    warnings.filterwarnings("ignore")
+    logging.disable(logging.CRITICAL)
+    rng = random.Random(seed)
+    out = Outcome()
+    check_frame_registry(out, rng, rounds_a)
+    check_nested_and_body_frames(out, rng, rounds_b)
+    return {"failures": out.failures, "cases": out.cases, "dist": out.dist, "keys": [repr(k) for k in out.keys]}
+
+
 def oracle(ctx, widened):
     out = Outcome()
     rng = ctx.rng
@@ -543,8 +852,20 @@ def oracle(ctx, widened):
     for _ in range(2000 if big else 300):
         n = rng.randint(2, 12)
         check_new_registration(out, rng, n, random_forest(rng, n))
-    check_frame_registry(out, rng, 12 if big else 5)
-    check_nested_and_body_frames(out, rng, 6 if big else 2)
+    for names, h, kind in named_cases(ctx, rng, 3000 if big else 300, 3000):
+        check_named_history(out, names, h, kind)
+    check_registry_scenarios(out, ctx, rng, big)
+    # the two in-process families on the real registry run in a forked child as well: a changed library may loop in path()
+    from harness import c20_registry as R
+    res, why = R.forked(_registry_families, rng.randrange(2**32), 12 if big else 5, 6 if big else 2, time_limit=300.0 if big else 60.0)
+    if res is None:
+        out.fail("registry-families-exceed-bound", "conversions interleaved with create_station / as_frame did not finish within the time / memory bound", {}, observed=why)
+    else:
+        out.failures.extend(res["failures"])
+        out.cases += res["cases"]
+        out.keys |= set(res["keys"])
+        for k, v in res["dist"].items():
+            out.dist[k] = out.dist.get(k, 0) + v
     out.sample({"history": [(0, 1), (1, 2), (3, 2)], "checked": "all pairs: valid simple chain == BFS distance, unconnected -> ValueError"})
     return out
 
@@ -552,6 +873,15 @@ def oracle(ctx, widened):
 def replay(f):
     out = Outcome()
     i = f["input"]
-    if "hist" in i:
+    if "registry_scenario" in i:
+        from harness import c20_registry as R
+        res = R.run_forked(i["registry_scenario"], time_limit=60.0)
+        for x in res["fails"]:
+            if x["family"] == f["family"]:
+                out.fail(x["family"], x["what"], i, observed=x["detail"])
+                break
+    elif "names" in i:
+        check_named_history(out, i["names"], [tuple(e) for e in i["hist"]], "replay")
+    elif "hist" in i:
         check_history(out, i["n"], [tuple(e) for e in i["hist"]], "replay")
     return out
